@@ -1,0 +1,6 @@
+//go:build !verif
+// +build !verif
+
+package snowflake_proxy
+
+func vhook(point string, args ...interface{}) {}
